@@ -281,6 +281,32 @@ func (h *harness) barrier() error {
 			return fmt.Errorf("an event broadcast while a subscriber was subscribed never reached it, although a later event of the same goroutine did (sentinel %d lost by the event stream)", n)
 		}
 		if !seen {
+			// Neither arrived.  Slow - or is the anchor not a subscriber any more?  A witness that subscribes
+			// now is forwarded two further sentinels: when it has the second, the stream has finished
+			// forwarding the first to everybody it knows.  A direct message to the anchor, sent after that,
+			// queues behind whatever the stream put into the anchor's inbox: the anchor handling it without
+			// having seen the first witness sentinel was not forwarded that sentinel - it lost its
+			// subscription without ever being unsubscribed.
+			w := newSub()
+			w.pid = h.e.SpawnFunc(w.receive, "witness", actor.WithID(fmt.Sprint(n)))
+			h.e.Subscribe(w.pid)
+			defer func() { h.e.Unsubscribe(w.pid); h.e.Poison(w.pid) }()
+			h.nsent += 2
+			n2, n3 := h.nsent-1, h.nsent
+			h.e.BroadcastEvent(sentinel{n2})
+			h.e.BroadcastEvent(sentinel{n3})
+			if w.waitFor(func() bool { return w.sents >= n3 }) == nil {
+				mark := 1<<30 + n3
+				h.e.Send(h.anchor.pid, probe{mark})
+				if h.anchor.waitFor(func() bool { return h.anchor.probes >= mark }) == nil {
+					h.anchor.mu.Lock()
+					got := h.anchor.sents
+					h.anchor.mu.Unlock()
+					if got < n2 {
+						return fmt.Errorf("a subscriber that was never unsubscribed is no longer forwarded events: a witness subscribed just now received sentinels %d and %d, the old subscriber handled a direct message sent after that and has seen no sentinel beyond %d (sentinel %d and everything after it were lost to it)", n2, n3, got, n)
+					}
+				}
+			}
 			return fmt.Errorf("%w: the anchor subscriber never saw sentinel %d", errInconclusive, n)
 		}
 	}
@@ -297,6 +323,9 @@ func (h *harness) barrier() error {
 }
 
 func msgVal(i int) any {
+	if i >= 12 {
+		return nil // a nil message is a message value like any other
+	}
 	switch i % 4 {
 	case 0:
 		return fmt.Sprintf("m%d", i)
@@ -843,7 +872,7 @@ func genCase(t *rapid.T, c09 bool) Case {
 		case "send":
 			op.Tgt = rapid.SampledFrom([]string{"nil", "never", "never", "stopped", "stopped", "foreign", "foreign", "live", "namesake"}).Draw(t, "tgt")
 			op.Snd = rapid.IntRange(0, 3).Draw(t, "snd")
-			op.Msg = rapid.IntRange(0, 11).Draw(t, "msg")
+			op.Msg = rapid.IntRange(0, 13).Draw(t, "msg")
 			switch op.Tgt {
 			case "nil", "never", "stopped":
 				op.Via = rapid.SampledFrom([]string{"", "", "", "local", "stop", "poison"}).Draw(t, "via")
